@@ -298,6 +298,20 @@ def xpath(root: "El", ctx: "El", expr: str):
     with predicates [@a], [@a="v"], [not(@a)]."""
     out = []
     for part in [p.strip() for p in expr.split("|")]:
+        ma = _re.fullmatch(r"//@(?:(?P<prefix>\w+):)?(?P<name>\*|[\w.-]+)", part)
+        if ma:
+            # attribute nodes of the whole document: the result is the list of their values
+            ns = {"xml": XMLNS, "xlink": XLINK, None: None}.get(ma.group("prefix"), "?")
+            if ns == "?":
+                raise Undecided(f"xpath form not modelled: {part!r}")
+            for n in root.subtree():
+                if not isinstance(n.tag, str):
+                    continue
+                for k, v in n.attrib.items():
+                    kns, _, kl = (k[1:].partition("}") if isinstance(k, str) and k.startswith("{") else (None, "", k))
+                    if kns == ns and ma.group("name") in ("*", kl):
+                        out.append(v if isinstance(v, str) else str(v))
+            continue
         m = _STEP.match(part)
         if not m:
             raise Undecided(f"xpath form not modelled: {part!r}")
@@ -335,29 +349,32 @@ def xpath(root: "El", ctx: "El", expr: str):
                     if n.tag != name:
                         continue
             if pred:
-                p = pred[1:-1].strip()
-                mm = _re.fullmatch(r"@([\w:.-]+)", p)
-                if mm:
-                    if _attr(n, mm.group(1)) is None:
-                        continue
-                else:
-                    mm = _re.fullmatch(r"@([\w:.-]+)\s*=\s*[\"']([^\"']*)[\"']", p)
-                    if mm:
-                        if _attr(n, mm.group(1)) != mm.group(2):
-                            continue
-                    else:
-                        mm = _re.fullmatch(r"not\(@([\w:.-]+)\)", p)
-                        if mm:
-                            if _attr(n, mm.group(1)) is not None:
-                                continue
-                        else:
-                            raise Undecided(f"xpath predicate not modelled: {pred}")
+                if not all(_pred_holds(n, cl.strip(), pred) for cl in pred[1:-1].split(" and ")):
+                    continue
             if not any(n is o for o in out):
                 out.append(n)
     return out
 
 
 XLINK = "http://www.w3.org/1999/xlink"
+XMLNS = "http://www.w3.org/XML/1998/namespace"
+
+
+def _pred_holds(n, p, whole):
+    """One clause of a predicate: @a | @a="v" | .//@a | not(<clause>)"""
+    mm = _re.fullmatch(r"not\((.*)\)", p)
+    if mm:
+        return not _pred_holds(n, mm.group(1).strip(), whole)
+    mm = _re.fullmatch(r"@([\w:.-]+)", p)
+    if mm:
+        return _attr(n, mm.group(1)) is not None
+    mm = _re.fullmatch(r"@([\w:.-]+)\s*=\s*[\"']([^\"']*)[\"']", p)
+    if mm:
+        return _attr(n, mm.group(1)) == mm.group(2)
+    mm = _re.fullmatch(r"\.//@([\w:.-]+)", p)
+    if mm:
+        return any(_attr(d, mm.group(1)) is not None for d in n.subtree()[1:] if isinstance(d.tag, str))
+    raise Undecided(f"xpath predicate not modelled: {whole}")
 
 
 def _attr(n, name):
